@@ -337,6 +337,11 @@ func (c converter) K8sNetworkPolicyToCalico(np *networkingv1.NetworkPolicy) (*mo
 	// to apply to only ingress traffic.
 	if len(policyTypes) == 0 {
 		policyTypes = append(policyTypes, apiv3.PolicyTypeIngress)
+		if len(np.Spec.Egress) > 0 {
+			// Same inference as the Kubernetes API server's defaulting: a policy that has an egress
+			// section affects egress.
+			policyTypes = append(policyTypes, apiv3.PolicyTypeEgress)
+		}
 	}
 
 	var uid types.UID
